@@ -402,7 +402,7 @@ impl World {
     // -----------------------------------------------------------------------------------------
     // building transactions
 
-    fn spendable(&self) -> Vec<(CoinID, CoinDataHeight)> {
+    pub fn spendable(&self) -> Vec<(CoinID, CoinDataHeight)> {
         let stakes = self.stakes_now();
         self.utxo
             .iter()
@@ -477,7 +477,7 @@ impl World {
     }
 
     /// Picks inputs whose unlocking is mutually compatible.
-    fn pick_inputs(&mut self, want_denoms: &[Denom], max_extra: usize) -> Vec<(CoinID, CoinDataHeight)> {
+    pub fn pick_inputs(&mut self, want_denoms: &[Denom], max_extra: usize) -> Vec<(CoinID, CoinDataHeight)> {
         let mut pool = self.spendable();
         self.rng.shuffle(&mut pool);
         let mut out: Vec<(CoinID, CoinDataHeight)> = vec![];
